@@ -1192,6 +1192,21 @@ class ContainerEngine:
         while len(ops) < nops:
             k = g.choices(kinds, [w[x] for x in kinds])[0]
             if k == "data":
+                if g.random() < (0.12 if prop == "C09" else 0.04):
+                    # an attribute that an older container holds is overwritten and deleted
+                    # inside one patch (the old value must not come back)
+                    cands = sorted(q for q, a in sh.attrs.items() if a and q in sh.nodes)
+                    if cands:
+                        q = g.choice(cands)
+                        key = g.choice(sorted(sh.attrs[q]))
+                        chain = [{"op": "boundary"}, {"op": "set_attr", "node": q, "key": key, "val": vgen.next(attr=True)}, {"op": "del_attr", "node": q, "key": key}]
+                        if g.random() < 0.3:
+                            chain.insert(1, {"op": "del_attr", "node": q, "key": key})
+                        for c in chain:
+                            if c["op"] != "boundary":
+                                sh.apply(c)
+                            ops.append(c)
+                        continue
                 if g.random() < (0.15 if prop in ("C09", "C06") else 0.05):
                     # replace-then-relocate inside one patch: a node that an older container
                     # holds is deleted, created anew and moved away (the old one must stay gone)
